@@ -1309,3 +1309,43 @@ def rule_ksolve(ctx: Ctx) -> List[Ob]:
 def Expander_for(ctx, f):
     from ..flow import Expander
     return Expander(ctx, f)
+
+
+@rule("INVMFORM", min_instances=1)
+def rule_invmform(ctx: Ctx) -> List[Ob]:
+    """the factors of the middle matrix are an exact algebraic function of D, L, S'S and theta: form_invMfactors may only
+    combine them with arithmetic, square roots, transposes, products, a Cholesky factorisation and block assembly -- no
+    floor, clamp, absolute value, selection or machine-epsilon term, which would make the factors those of another matrix
+    than the one of the stored pairs whenever a curvature is small"""
+    f = ctx.repo.func("bfgsmats.form_invMfactors")
+    obs: List[Ob] = []
+    ALLOWED = {"np.diag", "np.sqrt", "np.zeros", "np.zeros_like", "np.empty", "np.empty_like", "np.eye", "np.identity", "np.hstack", "np.vstack",
+               "np.block", "np.concatenate", "np.transpose", "np.diagflat", "np.reciprocal", "np.atleast_2d", "np.asarray", "np.array", "np.dot",
+               "np.matmul", "np.negative", "np.fill_diagonal", "np.diag_indices", "np.diag_indices_from", "np.arange", "np.tril", "np.triu",
+               "np.linalg.cholesky", "sp.linalg.cholesky", "scipy.linalg.cholesky", "sp.linalg.solve_triangular", "scipy.linalg.solve_triangular",
+               "np.copy", "range", "len", "int", "np.multiply", "np.divide", "np.power"}
+    METHODS = {"dot", "copy", "transpose", "reshape", "astype", "diagonal"}
+    bad = []
+    ncalls = 0
+    for c in walk_no_nested(f.node):
+        if isinstance(c, ast.Call):
+            ncalls += 1
+            d = dotted(c.func) or ""
+            if d in ALLOWED:
+                continue
+            if isinstance(c.func, ast.Attribute) and c.func.attr in METHODS and not d.startswith(("np.", "sp.", "scipy.", "numpy.")):
+                continue
+            bad.append(c)
+    # constants other than small integers / halves have no place in the formula either (1e-16 + d, ...)
+    for k in walk_no_nested(f.node):
+        if isinstance(k, ast.Constant) and isinstance(k.value, float) and k.value not in (0.0, 0.5, 1.0, 2.0, -1.0):
+            bad.append(k)
+    need(ncalls >= 2, "INVMFORM: form_invMfactors has no recognisable body")
+    for b in bad:
+        obs.append(ob("INVMFORM", "form_invMfactors combines D, L, S'S, theta by exact algebra only", f, b, False,
+                      f"`{short(b, 70)}` is not part of the factorisation formula: the factors are no longer those of the matrix built from the stored pairs",
+                      construct=short(b, 60)))
+    if not bad:
+        obs.append(ob("INVMFORM", "form_invMfactors combines D, L, S'S, theta by exact algebra only", f, f.node, True,
+                      f"{ncalls} calls, all arithmetic / sqrt / cholesky / assembly", construct="form_invMfactors: operations used"))
+    return obs
